@@ -119,6 +119,7 @@ type Merged struct {
 	Foreign        []string
 	LostSegments   int
 	Restarts       int
+	HeapRestarts   int
 	WallS          float64
 	Shards         int
 	harnessErrors  []string
@@ -291,6 +292,8 @@ func runShard(p *Prop, tier string, seed int64, sh, nsh int, dir, self string, m
 			kind = "cpu-timeout"
 		} else if ok && ee.ExitCode() == 4 {
 			kind = "heap-limit"
+		} else if ok && ee.ExitCode() == 5 {
+			kind = "harness-heap"
 		}
 		if killed {
 			kind = "wall-clock"
@@ -302,6 +305,12 @@ func runShard(p *Prop, tier string, seed int64, sh, nsh int, dir, self string, m
 		if p.AnomalyIsViolation && kind == "cpu-timeout" && !confirmSolo(p, key, dir, self, sh) {
 			kind = "slow-unconfirmed"
 		}
+		if p.AnomalyIsViolation && (kind == "heap-limit" || kind == "crash") && !confirmSolo(p, key, dir, self, sh) {
+			// the case alone, in a fresh process, stays within the heap budget and
+			// does not take the process down: the memory was the worker's own, left
+			// behind by the cases before it
+			kind = "harness-heap"
+		}
 		mu.Lock()
 		m.Restarts++
 		if !haveRes {
@@ -311,6 +320,10 @@ func runShard(p *Prop, tier string, seed int64, sh, nsh int, dir, self string, m
 		case kind == "slow-unconfirmed":
 			m.Inconclusive["slow_unconfirmed"]++
 			m.Foreign = append(m.Foreign, fmt.Sprintf("%s idx=%d key=%q", kind, idx, clip(key, 200)))
+		case kind == "harness-heap":
+			// nothing is concluded about any case: the worker is restarted after
+			// the case it had open (which the solo run, if any, has decided)
+			m.HeapRestarts++
 		case kind == "wall-clock":
 			m.Inconclusive["wall_clock_guard"]++
 			m.Foreign = append(m.Foreign, fmt.Sprintf("%s idx=%d key=%q", kind, idx, clip(key, 200)))
@@ -441,6 +454,7 @@ func conclude(p *Prop, tier string, seed int64, m *Merged) int {
 		"worker_processes":    m.Shards,
 		"worker_restarts":     m.Restarts,
 		"lost_segments":       m.LostSegments,
+		"heap_restarts":       m.HeapRestarts,
 		"known_findings_hit":  knownHit,
 	}
 	if len(m.Foreign) > 0 {
